@@ -337,6 +337,43 @@ def run(ctx):
                   name="every position x {delete, blank, each box glyph} of generated drawings, both builds", exhaustive=True)
     ctx.forall(ctx.p_sampled, ctx.scale(1500, 40000), batch=50)
     ctx.forall(ctx.p_damage, ctx.scale(4000, 600000), batch=500)
+    if ctx.thorough() and ctx.w == 0:
+        fuzz_phase(ctx)
+
+
+def fuzz_phase(ctx):
+    """coverage-guided campaign on the dtable_any target (arbitrary text is recognised or rejected, never a panic), seeded with the
+    gallery and with generated drawings; a crashing input is a violation unless its panic location is an open finding"""
+    import os
+    import shutil
+    from .. import fuzzrun
+    from ..engine import Src
+    if not fuzzrun.build(ctx.log):
+        ctx.extra["fuzz"] = {"skipped": "fuzz targets could not be built (tooling), no verdict from this phase"}
+        return
+    seeds = os.path.join(fuzzrun.TARGET, "fuzz-seeds-dtable")
+    shutil.rmtree(seeds, ignore_errors=True)
+    os.makedirs(seeds)
+    n = 0
+    for name, text in gallery():
+        with open(os.path.join(seeds, "g%04d" % n), "w", encoding="utf-8") as f:
+            f.write(text)
+        n += 1
+    rnd = ctx.rng("fuzz-seeds")
+    import random as _random
+    for i in range(150):
+        c = gen_roundtrip(Src(_random.Random(rnd.getrandbits(64))))
+        with open(os.path.join(seeds, "r%04d" % i), "w", encoding="utf-8") as f:
+            f.write(c["text"])
+    all_stats = []
+    for variant, globs in (("seeded", [os.path.join(seeds, "*")]), ("empty-corpus", [])):
+        stats, crashes = fuzzrun.campaign(ctx, "dtable_any", PROP, globs, runs=ctx.scale(100000, 5000000) if variant == "seeded" else ctx.scale(50000, 1000000),
+                                          max_len=6000, timeout_s=2 * 3600)
+        stats["variant"] = variant
+        all_stats.append(stats)
+        fuzzrun.report_crash_only(ctx, PROP, "dtable_any", crashes)
+    shutil.rmtree(seeds, ignore_errors=True)
+    ctx.extra["fuzz"] = all_stats
 
 
 if __name__ == "__main__":
